@@ -53,6 +53,8 @@ GARBAGE = base64.b64encode(b"\x30\x82\x01\x0a" + b"not-a-certificate" * 12).deco
 FLAG_NAMES = ["sign_response", "sign_assertion", "encrypt_assertion", "encrypted_advice_attributes",
               "encrypt_assertion_self_contained"]
 
+# root causes repaired in /repo (130fd4d2, 9b391349; `fixed` in KNOWN_FINDINGS.jsonl, which suppresses nothing):
+# finding_key names them only if the old behaviour comes back - it then surfaces as a VIOLATION
 KEY_EARLY = "C16/early-return-skips-advice-encryption"
 KEY_OBJFORM = "C16/encrypt-object-form-loses-assertion"
 
@@ -689,8 +691,10 @@ def compare(case, impl, model):
 
 
 def finding_key(case, impl, lean):
-    """root-cause class of a spec failure; the classes are decided by the driver from the case alone
-    (Spec/C16.lean: earlyReturnClass / objectFormClass) and must fit the way the implementation failed"""
+    """root-cause class of a spec failure: one of the two repaired defects, named only when the OLD behaviour is
+    back - the case lies in the defect's input class (decided by the driver from the case alone, Spec/C16.lean:
+    earlyReturnClass / objectFormClass) AND the implementation fails the way it used to (early return: the only
+    operation is the assertion signature and the advice is readable; object form: the call raises)"""
     cl = lean.get("classes") or {}
     why = set(lean.get("why") or [])
     if cl.get("early") and impl.get("idp") == "ok" and impl.get("ops") == ["signAssertion"] \
